@@ -12,10 +12,11 @@ class Case:
 
 class Suite:
     """a family of cases sharing one model header (the Require lines)"""
-    def __init__(self, name, header, cases, binary_opts=None, compare=True):
+    def __init__(self, name, header, cases, binary_opts=None, compare=True, runner=None):
         self.name, self.header, self.cases = name, header, cases
         self.binary_opts = binary_opts or {}
         self.compare = compare
+        self.runner = runner          # optional: (lines, binary) -> list of int lists, instead of core.run_impl
 
 class Prop:
     pid = "C00"; prop_file = None; allowed_axioms = (); design_ref = ""
@@ -62,7 +63,7 @@ def _obligations(prop):
 def _run_suite(prop, suite, stats):
     """fills case.impl / case.model; returns (divergences, oracle_hits)"""
     binary = core.harness_build(**suite.binary_opts)
-    impl = core.run_impl([c.line for c in suite.cases], binary)
+    impl = (suite.runner or core.run_impl)([c.line for c in suite.cases], binary)
     model = core.run_model([c.coq for c in suite.cases], suite.header, prop.pid + "_" + suite.name) if suite.compare else [None] * len(suite.cases)
     div, hits = [], []
     for c, i, m in zip(suite.cases, impl, model):
